@@ -191,7 +191,11 @@ pub trait ChainStore: Send + Sync + Sized {
             })
             .collect();
 
-        if let Some(cache) = self.cache() {
+        // every stored block has a cellbase: an empty answer means "not stored (yet)" and
+        // must not outlive the arrival of the block
+        if let Some(cache) = self.cache()
+            && !ret.is_empty()
+        {
             cache.block_tx_hashes.lock().put(hash.clone(), ret.clone());
         }
 
@@ -271,7 +275,11 @@ pub trait ChainStore: Send + Sync + Sized {
             .get(COLUMN_BLOCK_EXTENSION, hash.as_slice())
             .map(|slice| packed::BytesReader::from_slice_should_be_ok(slice.as_ref()).to_entity());
 
-        if let Some(cache) = self.cache() {
+        // "no extension" is only remembered for a block that is stored: asked about a block
+        // that has not arrived yet, the answer must not outlive its arrival
+        if let Some(cache) = self.cache()
+            && (ret.is_some() || self.block_exists(hash))
+        {
             cache.block_extensions.lock().put(hash.clone(), ret.clone());
         }
         ret
